@@ -58,3 +58,9 @@ C("C19",
   "Trusted: the coin model (15 lines) and the hashers (C11). 'Number of earlier draws' is only required to matter where rejection sampling cannot skip (see DESIGN.md false-alarm note).",
   "history + executable-model lock-step monitor, pairwise-history difference oracle",
   "DESIGN.md §5 C19")
+
+C("C13",
+  "Operation histories (1..200 operations over all 17 ByteReader operations, lengths biased to buffer/stream boundaries and to usize::MAX) are applied in lock-step to ReadAdapter over a chunking source (1-byte, fixed, straddling 256, random, whole, zero-length reads before the end) and to SliceReader as the executable model on the same 0..2000-byte stream; every value and error is compared, histories continue after errors, and a final drain must deliver exactly the unread rest (exactly-once). ~6e5 histories / 5e7 operations per quick run; ASan and Miri stages in thorough.",
+  "Trusted: SliceReader as the model (its own panics are reported too). After a zero-length read before the real end (std::io::Read's EOF signal) adapter errors are not judged; successful returns still must match.",
+  "history + executable-model lock-step monitor with conservation check; ASan/Miri on a sample",
+  "DESIGN.md §5 C13")
